@@ -18,6 +18,8 @@ deriving Repr, DecidableEq, Inhabited
 structure Handle where
   win : Win
   isStr : Bool := false
+  /-- handed out before the last Reset: no longer protected, but the variable may still be used as a destination -/
+  stale : Bool := false
 deriving Repr, DecidableEq, Inhabited
 
 structure BufSt where
@@ -72,6 +74,7 @@ inductive BufOp
   | bufferize (p : Bytes)           -- Bufferize / the bytes half of CopyTo
   | bufferizeStr (p : Bytes)        -- BufferizeString
   | assignBuf (rendered : Bytes) (isStr : Bool)   -- AssignBuf into a fresh []byte / string destination (Acquire, append, Release)
+  | assignBufTo (h : Nat) (rendered : Bytes)      -- AssignBuf into the variable of an earlier (possibly stale) handle
   | reset
   | overwrite (h : Nat) (i : Nat) (b : UInt8)     -- client writes a byte through a handed-out []byte
   | appendTo (h : Nat) (q : Bytes)                -- client: h = append(h, q...)
@@ -103,7 +106,20 @@ def bufStep (cfg : BufCfg) (s : BufSt) (op : BufOp) (newCap : Nat) : BufSt :=
        { arrays := arrays, buf := if keep then s.buf else some b,
          handles := s.handles ++ [{ win := if isStr then { w with cap := w.len } else w, isStr := isStr }] }
      | none => { s with handles := s.handles ++ [{ win := { arr := 0, off := 0, len := 0, cap := 0 }, isStr := isStr }] })
-  | .reset => { s with buf := s.buf.map (fun b => { b with len := 0 }), handles := [] }
+  | .assignBufTo h r =>
+    (match s.handles[h]? with
+     | none => s
+     | some hd =>
+       let off := match s.buf with | some b => b.len | none => 0
+       let (arrays, b') := appendWin s.arrays s.buf r newCap
+       (match b' with
+        | some b =>
+          let w := handOut cfg b off r.length
+          let keep := b.len == 0
+          { arrays := arrays, buf := if keep then s.buf else some b,
+            handles := s.handles.set h { win := if hd.isStr then { w with cap := w.len } else w, isStr := hd.isStr, stale := false } }
+        | none => { s with handles := s.handles.set h { win := { arr := 0, off := 0, len := 0, cap := 0 }, isStr := hd.isStr, stale := false } }))
+  | .reset => { s with buf := s.buf.map (fun b => { b with len := 0 }), handles := s.handles.map fun h => { h with stale := true } }
   | .overwrite h i byte =>
     (match s.handles[h]? with
      | some hd =>
